@@ -121,6 +121,7 @@ const (
 	c06OtherReply             // a secondary for another transaction
 	c06ControlRsp             // a control response (Linktest/Select/Deselect.rsp) reusing the system bytes
 	c06DupReply               // the matching secondary, twice
+	c06ControlThenReply       // a colliding control response and, right behind it, the matching secondary
 	c06Kinds
 )
 
@@ -134,7 +135,7 @@ func VerifC06_WaitVT() {
 	vsymExpect("got-cancel")
 	v := newVConnection(SelectedState)
 	kind := vsymChoose(c06Kinds)
-	if kind == c06ControlRsp {
+	if kind == c06ControlRsp || kind == c06ControlThenReply {
 		vsymRegion("controlRspCollidesWithDataTransaction")
 	}
 	ctx, cancel := context.WithCancel(context.Background())
@@ -185,6 +186,10 @@ func VerifC06_WaitVT() {
 		case c06ControlRsp:
 			c := &ControlMessage{header: [10]byte{0xFF, 0xFF, 0, 0, 0, stype, sys[0], sys[1], sys[2], sys[3]}}
 			v.c.RouteReply(c)
+		case c06ControlThenReply:
+			c := &ControlMessage{header: [10]byte{0xFF, 0xFF, 0, 0, 0, stype, sys[0], sys[1], sys[2], sys[3]}}
+			v.c.RouteReply(c)
+			_ = v.c.DeliverOwnedFrame(secondary)
 		}
 	}
 	before := v.snap()
@@ -204,7 +209,7 @@ func VerifC06_WaitVT() {
 	vsymAssert(after.inflight == before.inflight && after.inflight == 0, "inflight-gauge-back-to-zero")
 	vsymAssert(after.send == before.send+1, "send-counter-plus-one")
 	switch kind {
-	case c06Reply, c06DupReply:
+	case c06Reply, c06DupReply, c06ControlThenReply:
 		vsymReach("got-reply")
 		vsymAssert(err == nil && reply != nil, "reply-returned")
 		if reply != nil {
